@@ -42,7 +42,9 @@ type GraphCase struct {
 	SetHints map[*ref.SRule][]*ref.Value
 }
 
-var graphKeys = []string{"a", "b", "c", "id", "n", "x y", "é"}
+// (some keys need escape sequences when written: a quote, a backslash followed by a letter that
+// would make an escape of its own, a tab)
+var graphKeys = []string{"a", "b", "c", "id", "n", "x y", "é", "q\"r", "c:\\bin", "t\tu"}
 
 func GenGraph(t *rapid.T, o GraphOpts, label string) *GraphCase {
 	c := &gctx{t: t, g: &ref.Graph{Types: map[string]*ref.SNode{}}, hints: map[*ref.SNode][]*ref.Value{}, setHints: map[*ref.SRule][]*ref.Value{}, opts: o}
@@ -456,8 +458,13 @@ func (c *gctx) valueNode(i int, self string, depth int, isProp bool, label strin
 			n.Rules = nil
 		}
 	}
-	if isProp && c.draw(0, 3, label+"Opt") == 0 {
-		n.Rules = append(n.Rules, BoolRule("optional", true))
+	if isProp {
+		switch c.draw(0, 7, label+"Opt") {
+		case 0, 1:
+			n.Rules = append(n.Rules, BoolRule("optional", true))
+		case 2:
+			n.Rules = append(n.Rules, BoolRule("optional", false)) // written out: required whatever the default of the text is
+		}
 	}
 	if c.draw(0, 4, label+"Nullable") == 0 {
 		n.Rules = append(n.Rules, BoolRule("nullable", true))
